@@ -94,6 +94,10 @@ REGISTRY["C11"]["theorems"] += S("C11", "C11_swap_ok", "C11_swap_panics_i", "C11
 REGISTRY["C08"]["theorems"] += S("C08", "C08_over_range", "C08_whole")
 REGISTRY["C20"]["theorems"] += S("C20", "C20_push_back", "C20_push_front", "C20_pop_back", "C20_pop_front", "C20_swap", "C20_remove", "C20_truncate", "C20_make_contiguous")
 
+# properties about ownership / memory safety: the thorough tier also runs a sample of their cases under Miri
+for _p in ("C03", "C05", "C06", "C07", "C09", "C10"):
+    REGISTRY[_p]["miri"] = True
+
 # C18: the theorems of C01-C13 are what holds for both builds through the same correspondence
 REGISTRY["C18"]["theorems"] = [t for p in ("C01", "C02", "C03", "C04", "C05", "C06", "C07", "C08", "C09", "C10",
                                            "C11", "C12", "C13") for t in REGISTRY[p]["theorems"]]
